@@ -1101,6 +1101,23 @@ def case_kiss(ctx, idx, tier, hist=None, additive=False):
         if hist is not None and orig is not None:
             pr1 = orig[0](Xs)
             orig_obs = (before, (pr1.mean.clone(), pr1.covariance_matrix.clone()))
+    if cell == "cg" and chain is not None:
+        # the same requests once more with Cholesky solves (default settings): separates linear_operator's CG accuracy (an assumed
+        # contract of the primitive) from gpytorch's algebra, which is the same in both cells
+        with torch.no_grad(), warnings.catch_warnings(), gpytorch.settings.use_toeplitz(tz):
+            quiet()
+            try:
+                f0 = None
+                for k, (Xk, yk) in enumerate(reqs):
+                    fmc_ = mdl.get_fantasy_model(Xk, yk)
+                    fpc_ = fmc_(Xs)
+                    fhist[k]["alt"] = (fpc_.mean.clone(), fpc_.covariance_matrix.clone())
+                    f0 = f0 or fmc_
+                fcc_ = f0.get_fantasy_model(reqs[1][0], reqs[1][1])(Xs)
+                if "error" not in chain:
+                    chain["alt"] = (fcc_.mean.clone(), fcc_.covariance_matrix.clone())
+            except Exception:  # noqa: BLE001  (the cg-cell observation stands as it is)
+                pass
     with torch.no_grad(), warnings.catch_warnings(), gpytorch.settings.use_toeplitz(tz):
         quiet()
         noise, cmean = lik.noise.item(), mdl.mean_module.constant.item()
@@ -1188,10 +1205,27 @@ def case_kiss(ctx, idx, tier, hist=None, additive=False):
             return
         ctx.count("kiss_fantasy_cases")
         frt, fat = max(rt, 1e-5), max(at, 1e-5)
-        rep.close(pre + "InterpolatedPredictionStrategy/fantasy-mean", f"{desc}: fantasy mean vs dense conditional on train ++ fantasy data",
-                  fant["mean"], [[v[0] + cm] for v in dmean], frt, fat)
-        rep.close(pre + "InterpolatedPredictionStrategy/fantasy-covar", f"{desc}: fantasy covariance vs dense conditional on train ++ fantasy data",
-                  fant["cov"], dcov, frt, fat)
+
+        def fclose(key, what, got, want, alt, extra=None):
+            """fantasy prediction vs specification; in the CG cell a deviation that disappears when the SAME request is solved by
+            Cholesky (1e-5) is linear_operator's CG accuracy: recorded as an assumption, not a failure"""
+            dv, sc = maxdiff(got, want)
+            if dv <= fat + frt * sc:
+                return True
+            if alt is not None:
+                d2, _ = maxdiff(alt, want)
+                if d2 <= 1e-5 + 1e-5 * sc:
+                    ctx.count("cg_fantasy_inaccuracy")
+                    if ctx.counters["cg_fantasy_inaccuracy"] <= 4:
+                        ctx.assumption(f"{what}: {dv:.2e} off under max_cholesky_size(0) (CG), {d2:.2e} with Cholesky solves — linear_operator CG accuracy")
+                    return True
+            rep.fail(key, f"{what}: max |impl - exact| = {dv:.3e} (tolerance {fat + frt * sc:.1e})", extra)
+            return False
+        alt0 = fant.get("alt", (None, None))
+        fclose(pre + "InterpolatedPredictionStrategy/fantasy-mean", f"{desc}: fantasy mean vs dense conditional on train ++ fantasy data",
+               fant["mean"], [[v[0] + cm] for v in dmean], alt0[0])
+        fclose(pre + "InterpolatedPredictionStrategy/fantasy-covar", f"{desc}: fantasy covariance vs dense conditional on train ++ fantasy data",
+               fant["cov"], dcov, alt0[1])
         # model of the WISKI caches (exact) == dense conditional mean: checked exactly
         if g <= 14:
             ctx.count("wiski_exact_cache_checks")
@@ -1219,10 +1253,11 @@ def case_kiss(ctx, idx, tier, hist=None, additive=False):
             tag = "chained-" if k >= len(reqs) else ("repeat-" if k > 0 else "")
             rep.close(hp + tag + "response-cache", f"{desc} {what}: interp_response_cache of the new strategy vs W^T D^-1 r on train ++ its own fantasy data",
                       rec["resp"], resp_k, 1e-9, 1e-10, extra=ex)
-            rep.close(hp + tag + "mean", f"{desc} {what}: fantasy mean vs dense conditional on train ++ its own fantasy data",
-                      rec["mean"], [[v[0] + cm] for v in dm_k], frt, fat, extra=ex)
-            rep.close(hp + tag + "covar", f"{desc} {what}: fantasy covariance vs dense conditional on train ++ its own fantasy data",
-                      rec["cov"], dc_k, frt, fat, extra=ex)
+            altk = rec.get("alt", (None, None))
+            fclose(hp + tag + "mean", f"{desc} {what}: fantasy mean vs dense conditional on train ++ its own fantasy data",
+                   rec["mean"], [[v[0] + cm] for v in dm_k], altk[0], ex)
+            fclose(hp + tag + "covar", f"{desc} {what}: fantasy covariance vs dense conditional on train ++ its own fantasy data",
+                   rec["cov"], dc_k, altk[1], ex)
         if tie(ctx, "wiskiFantasyStep[self.response after the history]", gbase_resp, base_resp, desc) and float(dPbase) != 0:
             ctx.broke("correspondence", "generated!=model:wiskiFantasyStep[self.inner_prod after the history]", f"{desc}: {float(dPbase):.3e}")
         if base_after:
@@ -1565,9 +1600,9 @@ FAMILIES = {   # family: (case builder, #cases quick, #cases thorough)
     "hist_sgpr": (case_hist_sgpr, 12, 96), "hist_rff": (case_hist_rff, 8, 72), "hist_kiss": (case_hist_kiss, 16, 64),
     "hist_grid": (case_hist_grid, 6, 36),
     # additive-structure KISS-GP (`last_dim_is_batch=True`): kernel level and ExactGP models (incl. fantasy histories)
-    "kisslb": (case_kisslb, 12, 72), "add_kiss": (case_add_kiss, 8, 40),
+    "kisslb": (case_kisslb, 12, 48), "add_kiss": (case_add_kiss, 8, 30),
     # copy-then-modify-then-evaluate histories (deepcopy, then setters / optimiser steps / load_state_dict on the COPY)
-    "copy_sgpr": (case_copy_sgpr, 6, 36), "copy_rff": (case_copy_rff, 3, 18), "copy_kiss": (case_copy_kiss, 8, 24),
+    "copy_sgpr": (case_copy_sgpr, 6, 36), "copy_rff": (case_copy_rff, 3, 18), "copy_kiss": (case_copy_kiss, 8, 16),
 }
 
 
